@@ -18,46 +18,46 @@ func drain(p prod) {
 	zz.Assert(!it.HasNext(), p.name+": stays exhausted")
 }
 
-func VH_c12_drain_FromSeq() { drain(find("FromSeq")) }
-func VH_c12_drain_FromSlice() { drain(find("FromSlice")) }
-func VH_c12_drain_Of() { drain(find("Of")) }
-func VH_c12_drain_IteratorOfSeq() { drain(find("IteratorOfSeq")) }
-func VH_c12_drain_Empty() { drain(find("Empty")) }
-func VH_c12_drain_ReverseSeq() { drain(find("ReverseSeq")) }
-func VH_c12_drain_ReverseSlice() { drain(find("ReverseSlice")) }
-func VH_c12_drain_FromOption() { drain(find("FromOption")) }
-func VH_c12_drain_FromPtr() { drain(find("FromPtr")) }
-func VH_c12_drain_FromList() { drain(find("FromList")) }
-func VH_c12_drain_List() { drain(find("List")) }
+func VH_c12_drain_FromSeq()         { drain(find("FromSeq")) }
+func VH_c12_drain_FromSlice()       { drain(find("FromSlice")) }
+func VH_c12_drain_Of()              { drain(find("Of")) }
+func VH_c12_drain_IteratorOfSeq()   { drain(find("IteratorOfSeq")) }
+func VH_c12_drain_Empty()           { drain(find("Empty")) }
+func VH_c12_drain_ReverseSeq()      { drain(find("ReverseSeq")) }
+func VH_c12_drain_ReverseSlice()    { drain(find("ReverseSlice")) }
+func VH_c12_drain_FromOption()      { drain(find("FromOption")) }
+func VH_c12_drain_FromPtr()         { drain(find("FromPtr")) }
+func VH_c12_drain_FromList()        { drain(find("FromList")) }
+func VH_c12_drain_List()            { drain(find("List")) }
 func VH_c12_drain_ToList_FromList() { drain(find("ToList_FromList")) }
-func VH_c12_drain_Take() { drain(find("Take")) }
-func VH_c12_drain_Drop() { drain(find("Drop")) }
-func VH_c12_drain_TakeWhile() { drain(find("TakeWhile")) }
-func VH_c12_drain_DropWhile() { drain(find("DropWhile")) }
-func VH_c12_drain_Filter() { drain(find("Filter")) }
-func VH_c12_drain_FilterNot() { drain(find("FilterNot")) }
-func VH_c12_drain_TapEach() { drain(find("TapEach")) }
-func VH_c12_drain_Appended() { drain(find("Appended")) }
-func VH_c12_drain_MethodConcat() { drain(find("MethodConcat")) }
-func VH_c12_drain_MethodConcat3() { drain(find("MethodConcat3")) }
-func VH_c12_drain_MethodMap() { drain(find("MethodMap")) }
-func VH_c12_drain_MethodFlatMap() { drain(find("MethodFlatMap")) }
-func VH_c12_drain_Map() { drain(find("Map")) }
-func VH_c12_drain_Lift() { drain(find("Lift")) }
-func VH_c12_drain_FlatMap() { drain(find("FlatMap")) }
-func VH_c12_drain_Flatten() { drain(find("Flatten")) }
-func VH_c12_drain_FilterMap() { drain(find("FilterMap")) }
-func VH_c12_drain_Compose() { drain(find("Compose")) }
-func VH_c12_drain_ComposePure() { drain(find("ComposePure")) }
-func VH_c12_drain_Concat() { drain(find("Concat")) }
-func VH_c12_drain_Ap() { drain(find("Ap")) }
+func VH_c12_drain_Take()            { drain(find("Take")) }
+func VH_c12_drain_Drop()            { drain(find("Drop")) }
+func VH_c12_drain_TakeWhile()       { drain(find("TakeWhile")) }
+func VH_c12_drain_DropWhile()       { drain(find("DropWhile")) }
+func VH_c12_drain_Filter()          { drain(find("Filter")) }
+func VH_c12_drain_FilterNot()       { drain(find("FilterNot")) }
+func VH_c12_drain_TapEach()         { drain(find("TapEach")) }
+func VH_c12_drain_Appended()        { drain(find("Appended")) }
+func VH_c12_drain_MethodConcat()    { drain(find("MethodConcat")) }
+func VH_c12_drain_MethodConcat3()   { drain(find("MethodConcat3")) }
+func VH_c12_drain_MethodMap()       { drain(find("MethodMap")) }
+func VH_c12_drain_MethodFlatMap()   { drain(find("MethodFlatMap")) }
+func VH_c12_drain_Map()             { drain(find("Map")) }
+func VH_c12_drain_Lift()            { drain(find("Lift")) }
+func VH_c12_drain_FlatMap()         { drain(find("FlatMap")) }
+func VH_c12_drain_Flatten()         { drain(find("Flatten")) }
+func VH_c12_drain_FilterMap()       { drain(find("FilterMap")) }
+func VH_c12_drain_Compose()         { drain(find("Compose")) }
+func VH_c12_drain_ComposePure()     { drain(find("ComposePure")) }
+func VH_c12_drain_Concat()          { drain(find("Concat")) }
+func VH_c12_drain_Ap()              { drain(find("Ap")) }
 func VH_c12_drain_FlapMap_Method1() { drain(find("FlapMap_Method1")) }
-func VH_c12_drain_Flap() { drain(find("Flap")) }
-func VH_c12_drain_Zip() { drain(find("Zip")) }
-func VH_c12_drain_ZipWithIndex() { drain(find("ZipWithIndex")) }
-func VH_c12_drain_Zip3() { drain(find("Zip3")) }
-func VH_c12_drain_Scan() { drain(find("Scan")) }
-func VH_c12_drain_Range() { drain(find("Range")) }
-func VH_c12_drain_RangeClosed() { drain(find("RangeClosed")) }
-func VH_c12_drain_GenerateTake() { drain(find("GenerateTake")) }
-func VH_c12_drain_SeqMethods() { drain(find("SeqMethods")) }
+func VH_c12_drain_Flap()            { drain(find("Flap")) }
+func VH_c12_drain_Zip()             { drain(find("Zip")) }
+func VH_c12_drain_ZipWithIndex()    { drain(find("ZipWithIndex")) }
+func VH_c12_drain_Zip3()            { drain(find("Zip3")) }
+func VH_c12_drain_Scan()            { drain(find("Scan")) }
+func VH_c12_drain_Range()           { drain(find("Range")) }
+func VH_c12_drain_RangeClosed()     { drain(find("RangeClosed")) }
+func VH_c12_drain_GenerateTake()    { drain(find("GenerateTake")) }
+func VH_c12_drain_SeqMethods()      { drain(find("SeqMethods")) }
